@@ -121,28 +121,23 @@ _NONTRANS = {}
 
 
 def nontransitive_triples():
-    """Every (A, B, H) of placed library gates on two qubits such that A and B share a qubit and do NOT commute (by their
-    matrices) while the documented commutation rule declares H commuting with A and with B, H acting on that qubit too:
-    the rule is not transitive (CNOT(c->q) with X(q) and RX(q); CNOT(q->t) with Z(q) and RZ(q)), so "commutes with one
-    member of the qubit's current cycle" does not imply "commutes with all".  Computed from the library's matrices and the
-    documented rule (cached per tree variant), as name/targets/controls triples."""
+    """Every (A, B, H) of placed library gates on two qubits, all three acting on one common qubit, such that the documented
+    commutation rule declares H commuting with A and with B but does NOT declare A and B commuting: the rule is not
+    transitive (CNOT(c->q) with X(q) and RX(q); CNOT(q->t) with Z(q) and RZ(q)), so "commutes with one member of the
+    qubit's current cycle" does not imply "commutes with all", and the dependency A -> B must still be recorded.  Computed
+    from the documented rule (cached per tree variant), as name/targets/controls triples."""
     key = (len_bound(), self_commuting_names())
     if key not in _NONTRANS:
         pool = [g for g in placements(2) if len(g[1]) + len(g[2]) <= 2]
-        spec = {i: [g[0], g[1], g[2], arg_for(g[0], i % 5)] for i, g in enumerate(pool)}
+        spec = [[g[0], g[1], g[2], None] for g in pool]
         out = []
-        for h in spec:
-            partners = [a for a in spec if a != h and used_of(spec[a]) & used_of(spec[h]) and documented_rule(spec[h], spec[a])]
+        for h in range(len(pool)):
+            partners = [a for a in range(len(pool)) if a != h and used_of(spec[a]) & used_of(spec[h])
+                        and documented_rule(spec[h], spec[a])]
             for a in partners:
                 for b in partners:
-                    if a == b:
-                        continue
-                    common = used_of(spec[a]) & used_of(spec[b]) & used_of(spec[h])
-                    # different parameters for two gates of one family
-                    sb = list(spec[b])
-                    if sb[0] == spec[a][0]:
-                        sb[3] = arg_for(sb[0], 3) if spec[a][3] != arg_for(sb[0], 3) else arg_for(sb[0], 4)
-                    if common and not truly_commute(spec[a], sb):
+                    if a != b and used_of(spec[a]) & used_of(spec[b]) & used_of(spec[h]) \
+                            and not documented_rule(spec[a], spec[b]):
                         out.append((pool[a], pool[b], pool[h]))
         _NONTRANS.clear()
         _NONTRANS[key] = out
